@@ -110,7 +110,8 @@ class SelfLeakedVisitor(OpVisitor[GenAndKill]):
             self_type = op.fn.sig.args[0].type
             assert isinstance(self_type, RInstance), self_type
             cl = self_type.class_ir
-            if not cl.init_self_leak:
+            # 'self' may only be passed as the object being initialized.
+            if not cl.init_self_leak and all(arg is not self.self_reg for arg in op.args[1:]):
                 return CLEAN
         return self.check_register_op(op)
 
